@@ -320,8 +320,8 @@ RBDL_DLLAPI void CompositeRigidBodyAlgorithm (
 
           MatrixNd H_temp2 = F_Nd.transpose() * (model.mCustomJoints[k]->S);
 
-          H.block(dof_index_i,dof_index_j,3,dof) = H_temp2;
-          H.block(dof_index_j,dof_index_i,dof,3) = H_temp2.transpose();
+          H.block(dof_index_i,dof_index_j,dofI,dof) = H_temp2;
+          H.block(dof_index_j,dof_index_i,dof,dofI) = H_temp2.transpose();
         }
       }
     }
